@@ -967,6 +967,11 @@ func cssValueSelfContained(value string) bool {
 				return false
 			}
 			closers = closers[:len(closers)-1]
+		case '!':
+			// The parser has already taken the one "!important" a declaration
+			// may end with, what is left is not a value and the next parse
+			// of it would differ
+			return false
 		}
 	}
 	return len(closers) == 0
